@@ -33,7 +33,7 @@ func init() {
 		Run:            run,
 		MinEvaluations: map[string]int{"quick": 300000, "thorough": 20000000},
 		MinNontrivial:  map[string]int{"quick": 3000, "thorough": 30000},
-		RequiredObs:    []string{"load_through_reader_kind_1", "load_through_reader_kind_2", "load_through_reader_kind_3", "load_through_reader_kind_4", "load_through_reader_kind_5", "load_through_reader_kind_6", "save_points_in_orders>=10(prefix of the output)", "failed_save_attempts", "saves_on_same_iterator", "save_points", "save_points_after_exhaustion", "save_points_before_first", "chains", "interleaved_steps", "configs_with_predicate"},
+		RequiredObs:    []string{"checkpoints_loaded_by_a_process_that_never_saved", "load_through_reader_kind_1", "load_through_reader_kind_2", "load_through_reader_kind_3", "load_through_reader_kind_4", "load_through_reader_kind_5", "load_through_reader_kind_6", "save_points_in_orders>=10(prefix of the output)", "failed_save_attempts", "saves_on_same_iterator", "save_points", "save_points_after_exhaustion", "save_points_before_first", "chains", "interleaved_steps", "configs_with_predicate"},
 	})
 }
 
@@ -489,6 +489,31 @@ func run(c *engine.Ctx) {
 			})
 		}
 	}
+	// a checkpoint loaded by ANOTHER process (one that has never saved anything)
+	for ci, cf := range []config{{5, 0, 1, -1, 0}, {6, 1, 2, -1, 0}, {7, 2, 3, -1, 0}, {6, 0, 1, -2, 1}, {7, 1, 2, -2, 0}} {
+		ci, cf := ci, cf
+		if cf.pred == -2 {
+			for i, p := range srch.Preds() {
+				if p.Name == "triangle-free" {
+					cf.pred = i
+				}
+			}
+		}
+		c.Unit("fresh-process/"+cf.name(), func() {
+			m := &mon{c: c, cf: cf}
+			S, ok := m.reference()
+			if !ok {
+				return
+			}
+			r := c.Rand("c04-fresh", ci)
+			for _, k := range []int{0, 1, 1 + r.Intn(len(S)), 1 + r.Intn(len(S)), len(S), len(S) + 1} {
+				if !m.freshProcess(S, k, 12) {
+					return
+				}
+			}
+		})
+	}
+
 	// orders 10..14 (thorough: ..18): the output is out of reach but its first few hundred values are not.  Save
 	// positions near the start, compared with the prefix of an uninterrupted run (widths of the saved fields change
 	// with n: the stack of choices has one entry per vertex and its entries one bit per vertex)
